@@ -676,9 +676,9 @@ var _ xmpp.Handler
 
 func init() {
 	drv.Register(&drv.Prop{
-		ID:    "C15",
-		Level: "model_checking",
-		Rule: "sending: block size {4,5,16,2048,4096,65535} x payload length (0..9, around the block size, 767/768/769, 1023..1025, 3 blocks) x partition into Write calls (every composition up to 6 bytes, boundary cuts above) x Flush never/after each write x IQ/message carrier against an acknowledging peer: the data packets on the wire decode to exactly the written bytes, seq 0,1,2,..., constant sid, one open and one close; open refused => Open fails. receiving: peer opens and sends 1-3 packets (+ close or not), application reads with 1/4/64-byte buffers, every interleaving of the serve loop and the reader up to the preemption bound: exactly the bytes then EOF, and no reader parked forever while data is buffered. bad packets: every sequence of up to N packets from {valid, unknown sid, seq-1, seq+1, invalid base64, empty, closed sid (remote), oversized} between two valid packets: each refused with the right stanza error, delivered bytes intact; data for a locally closed stream is refused. Non-trivial = every distinct case/schedule.",
+		ID:          "C15",
+		Level:       "model_checking",
+		Rule:        "sending: block size {4,5,16,2048,4096,65535} x payload length (0..9, around the block size, 767/768/769, 1023..1025, 3 blocks) x partition into Write calls (every composition up to 6 bytes, boundary cuts above) x Flush never/after each write x IQ/message carrier against an acknowledging peer: the data packets on the wire decode to exactly the written bytes, seq 0,1,2,..., constant sid, one open and one close; open refused => Open fails. receiving: peer opens and sends 1-3 packets (+ close or not), application reads with 1/4/64-byte buffers, every interleaving of the serve loop and the reader up to the preemption bound: exactly the bytes then EOF, and no reader parked forever while data is buffered. bad packets: every sequence of up to N packets from {valid, unknown sid, seq-1, seq+1, invalid base64, empty, closed sid (remote), oversized} between two valid packets: each refused with the right stanza error, delivered bytes intact; data for a locally closed stream is refused. Non-trivial = every distinct case/schedule.",
 		Assumptions: []string{"the peer end is a protocol script (acknowledges opens, data and close), the library end is the real session + ibb handler under the controlled scheduler", "Flush may hold back an incomplete base64 group until Close; equality is required after Close"},
 		Parts: func(tier string) []drv.Part {
 			pre, nb, b := 2, 2, 3*time.Minute
@@ -693,6 +693,7 @@ func init() {
 				{Name: "bad-packets", Body: badPacketsBody(nb), MaxDev: 0, CutDepth: 3, Budget: b, Env: env},
 				{Name: "closed-locally", Body: localCloseBody, MaxDev: 1, Workers: 2, Budget: b, Env: env},
 				{Name: "close-drain", Body: closeDrainBody, MaxDev: 1, Workers: 2, Budget: b, Env: env},
+				{Name: "wrap", Desc: "65541 one-byte packets in each direction and carrier: the sequence number wraps around", Body: wrapBody, MaxDev: 0, ShardLevels: 1, Workers: 4, Budget: b, Env: env},
 			}
 		},
 	})
